@@ -169,6 +169,7 @@ func ruleC08(c *Ctx) {
 	c.rule("C08-R3", "accessor idioms: Get = first value or \"\", GetSize = len or 0, GetAll = all values in index order; nil map and absent key give empty results")
 	c.rule("C08-R4", "decode targets are fresh and decoded from the verified element (shared with C01-R1/R2): the assertion list returned is exactly what was decoded from signed bytes")
 	checkSchemaTable(c, "C08-R1", schemaTable)
+	decodedImmutable(c, "C08-R6")
 
 	// R2
 	ri := c.kernel("(*SAMLServiceProvider).RetrieveAssertionInfo", retrieveInline...)
